@@ -22,6 +22,14 @@ CHECKS.update({
  "C08": ("Coq: calendar helpers regenerated from the source = closed form for every month of a 50-year horizon (complete finite domain), closed form periodic for every month number, every month end a breakpoint (induction over month lists), replication, strict monotonicity under disjoint windows; same correspondence",
          "single-year load list (the tool's only mode); leap years not modelled (the tool uses 8760-hour years)", "6 C08"),
 })
+CHECKS.update({
+ "C03": ("Coq: spacing/row arithmetic for all rational lot sizes, lattice theorem on coordinates.rectangle REGENERATED from the source, soundness of the field check; every domain generator (rectangular, bi_rectangular, bi_rectangle_nested, zoned_rectangle_domain, bi_rectangle_zoned_nested, square_and_near_square) is translated to Gallina on each run, compared field by field with the real generators on exact inputs, and the proved-sound check is evaluated on the translated generators inside Coq",
+         "the link 'every field produced by the generator loops is such a lattice' is established per input by evaluation in Coq, not by an unbounded theorem; floats compared with 1e-9 m", "6 C03"),
+ "C04": ("Coq: iff-characterisation of what remove_cutout keeps for ANY classifier (sound + complete), model of polygonal_land_constraint with an exact decision of the focal-sum tolerance test; exact equality with the real function on random rational polygons",
+         "classifier correctness is C16; focal_lt (exact tolerance test) validated by correspondence, not proved; reorder's sortedness observed, not proved", "6 C04"),
+ "C16": ("Coq: per-edge theorem (flip iff crossing strictly right, on-edge iff abscissa equal), loop = crossing-number parity for every vertex list, start-vertex and orientation independence; ~400k exact classifications compared with the real function per run",
+         "the on-edge band is modelled exactly only on inputs whose focal excess is 0 or >= 0.059; Jordan curve theorem not attempted (the property names the crossing number as reference)", "6 C16"),
+})
 NA = {}
 def main():
     checks = []
